@@ -4,6 +4,7 @@
  *   'T'                                   -> text table, terminated by "END\n"
  *   'E' row n  (n x struct image)         -> n x (flag byte, nbytes wire)
  *   'D' row n  (n x nbytes wire)          -> n x (flag byte, struct image)
+ *   'X' row n wl (n x wl wire, wl >= nbytes) -> n x (flag byte, struct image)
  *   'J' row    (struct image)             -> u32 len, text
  *   'Q'                                   -> exit
  * Every struct and every wire buffer is used twice: flush against a PROT_NONE page at its
@@ -17,6 +18,30 @@
 #include <string.h>
 #include <sys/mman.h>
 #include <unistd.h>
+
+#ifdef RT_BE_SHIM
+/* Big-endian emulation (see rt_harness.c): the runtime is a shared object built with
+ * -DBP_BIG_ENDIAN, storage is byte-reversed by the driver, and the one native access
+ * (the sign fix) gets the view of a real big-endian host. */
+#include <dlfcn.h>
+#include "bitproto.h"
+typedef void (*signfix_fn)(int, int, struct BpProcessorContext *, void *);
+static void swapn(unsigned char *p, int n) {
+    for (int i = 0; i < n / 2; i++) {
+        unsigned char t = p[i];
+        p[i] = p[n - 1 - i];
+        p[n - 1 - i] = t;
+    }
+}
+void BpHandleIntSignAfterEndecode(int size, int nbits, struct BpProcessorContext *ctx, void *data) {
+    static signfix_fn real = NULL;
+    if (!real) real = (signfix_fn)dlsym(RTLD_NEXT, "BpHandleIntSignAfterEndecode");
+    if (!real) _exit(9);
+    swapn((unsigned char *)data, size);
+    real(size, nbits, ctx, data);
+    swapn((unsigned char *)data, size);
+}
+#endif
 
 typedef int (*endec_fn)(void *, unsigned char *);
 typedef int (*json_fn)(void *, char *);
@@ -158,6 +183,31 @@ int harness_main(void) {
                     wr(&flag, 1);
                     wr(out0, row->size);
                 }
+            }
+            fflush(stdout);
+        } else if (op == 'X') {
+            /* decode a buffer of explicit length wl (>= nbytes): forward compatibility (C05) */
+            uint32_t n = rd32();
+            uint32_t wl = rd32();
+            if (wl > HARNESS_AREA) exit(7);
+            for (uint32_t k = 0; k < n; k++) {
+                cur_item = k;
+                unsigned char flag = 0;
+                rd(img, wl);
+                for (int place = 0; place < 2; place++) {
+                    cur_place = (uint32_t)place;
+                    unsigned char *s = area_place(&as, row->size, place);
+                    unsigned char *w = area_place(&aw, wl, place);
+                    memset(s, 0, row->size);
+                    memcpy(w, img, wl);
+                    int rc = row->dec(s, w);
+                    if (rc != 0) flag |= 4;
+                    if (memcmp(w, img, wl) != 0) flag |= 2;
+                    memcpy(place ? out1 : out0, s, row->size);
+                }
+                if (memcmp(out0, out1, row->size) != 0) flag |= 1;
+                wr(&flag, 1);
+                wr(out0, row->size);
             }
             fflush(stdout);
         } else if (op == 'J') {
